@@ -11,6 +11,7 @@ import copy
 from .. import specgen as sg
 from .. import monitors as M
 from .. import world
+from .. import units
 from ..core import Result
 from ..ref import dense as D
 from . import common
@@ -27,7 +28,7 @@ ASSUMPTIONS = ['both sides are the real offline monitor', 'horizon from RefHoriz
                'operator is present (envelope of F14a)', 'NaN values are compared as equal to NaN']
 REAL = common.REAL_ALL
 STUBS = common.STUBS_ALL
-PROBES = ['horizon_gt_0', 'pure_past', 'dense_time', 'padding_visible_outside_settled_region', 'truncated_to_one_sample']
+PROBES = ['horizon_gt_0', 'pure_past', 'dense_time', 'padding_visible_outside_settled_region', 'truncated_to_one_sample', 'bounds_with_explicit_units']
 INTERLEAVING_MEASURE = 'distinct (time domain, log length, truncation point) tuples'
 ENVELOPE_RULES = ['bounded-op-nonzero-start (F14a) for dense time']
 
@@ -70,8 +71,14 @@ def _gen(rng, tier):
                 'text': common.dense_text(ast, sg.Spelling(rng)), 'cls': rng.choice(['ct_off', 'ct_off', 'ct'])}
     n = rng.randint(2, 24 if big else 14)
     data = world.gen_trace(rng, vars_, n)
-    return {'dense': False, 'vars': vars_, 'ast': ast, 'n': n, 'data': data,
-            'text': 'out = ' + sg.to_text(ast, sg.Spelling(rng)) + ';', 'cls': rng.choice(['dt_off', 'dt_off', 'dt'])}
+    notation = units.gen_notation(rng, p_plain=0.75)       # bounds written with explicit units, sampling period in another unit
+    try:
+        text = 'out = ' + sg.to_text(ast, sg.Spelling(rng), units.bounds_printer(notation, rng)) + ';'
+    except ValueError:
+        notation = units.plain_notation()
+        text = 'out = ' + sg.to_text(ast, sg.Spelling(rng)) + ';'
+    return {'dense': False, 'vars': vars_, 'ast': ast, 'n': n, 'data': data, 'notation': notation,
+            'text': text, 'cls': rng.choice(['dt_off', 'dt_off', 'dt'])}
 
 
 def eqn(a, b):
@@ -82,20 +89,26 @@ def run(sc):
     r = Result()
     ast = sc['ast']
     h = sg.horizon(ast)
+    nt = sc.get('notation') if (sc['text'] and not sc['dense']) else None     # a shrunk formula is re-printed in ticks
     text = sc['text'] or (common.dense_text(ast) if sc['dense'] else 'out = ' + sg.to_text(ast) + ';')
     desc = {'cls': sc['cls'], 'vars': common.var_decls(sc['vars']), 'spec': text}
+    if nt:
+        desc.update(units.spec_config(nt))
+        if units.notation_class(nt) != 'plain':
+            r.probes['bounds_with_explicit_units'] += 1
     used = sg.vars_of(ast)
     nontriv = False
     try:
         if not sc['dense']:
             n, data = sc['n'], sc['data']
-            full = [p[1] for p in M.dt_evaluate(M.build(desc), list(range(n)), data)]
+            stamps = units.stamps(nt, n) if nt else list(range(n))
+            full = [p[1] for p in M.dt_evaluate(M.build(desc), stamps, data)]
             r.api_calls += 3
             r.obs.append(full)
             for m in range(1, n):
                 r.faults['truncate'] += 1
                 r.interleavings.add('dt|n=%d|cut=%d' % (n, m))
-                pre = [p[1] for p in M.dt_evaluate(M.build(desc), list(range(m)), dict((v, data[v][:m]) for v in data))]
+                pre = [p[1] for p in M.dt_evaluate(M.build(desc), stamps[:m], dict((v, data[v][:m]) for v in data))]
                 r.api_calls += 3
                 r.sim_time += m
                 settled = [t for t in range(m) if t + h < m]
